@@ -251,6 +251,36 @@ VMathTot(e) ==
   ELSE FirstBad("C18.total-ub", {k \in 1..Len(e.hooks) : e.hooks[k].bad # 0})
 
 -------------------------------------------------------------------------------------
+(* C07 / C13  ev = "total": one conversion call on a batch of pixels (special-value cube, random bit
+   patterns, unit cube, or a geometry case), run under catch_unwind in a child process with the unsafe-site
+   hooks in Summary mode.  hooks[k] = [site, n, bad, max, len, fmin, fmax].
+   C07 reads the hook summaries (no unchecked access out of its slice; nothing but a finite in-range value
+   reaches the unchecked float->int cast).  C13 reads the outcome (never a panic or an abort; produced YUV
+   codes <= 2^n - 1 and re-wrappable; finite results on the unit cube).                            *)
+HookOk(h) ==
+  /\ h.bad = 0                                             \* the hook saw no NaN / inf / value outside i32 at the cast, no index >= length
+  /\ (h.site # "exp2_cast" /\ h.n > 0) => h.max < h.len    \* re-derived here from the logged extrema
+YuvStage(e) == e.stage \in {"enc", "LinToYuv", "XybToYuv"}
+VTotalC07(e) == FirstBad("C07.unsafe-site", {k \in 1..Len(e.hooks) : ~HookOk(e.hooks[k])})
+VTotalC13(e) ==
+  IF e.res \in {"panic", "abort"} THEN <<"C13.total", e.res>>
+  ELSE IF e.stage = "batch" THEN <<"C13.total", e.res>>
+  ELSE IF e.res # "ok" THEN
+         (IF YuvStage(e) /\ Has(e, "divisible") /\ e.divisible = 0 /\
+             e.res \in {"UnsupportedMatrixCoefficients", "UnspecifiedMatrixCoefficients", "UnsupportedColorPrimaries",
+                        "UnspecifiedColorPrimaries", "UnsupportedTransferCharacteristic", "UnspecifiedTransferCharacteristic"}
+          THEN OK ELSE <<"C13.supported-config-failed", e.res>>)
+  ELSE IF YuvStage(e) /\ ~(e.maxcode <= Pow2(e.cfg.n) - 1) THEN <<"C13.code-out-of-range", e.maxcode>>
+  ELSE IF YuvStage(e) /\ e.rewrap # "ok" THEN <<"C13.not-rewrappable", e.rewrap>>
+  ELSE IF YuvStage(e) /\ (e.wo # e.w \/ e.ho # e.h) THEN <<"C13.dims">>
+  ELSE IF ~YuvStage(e) /\ e.len # e.npx THEN <<"C13.dims">>
+  ELSE IF ~YuvStage(e) /\ e.input = "unit" /\ e.nonfinite # 0 THEN <<"C13.non-finite-on-unit-cube", e.nonfinite>>
+  ELSE OK
+VTotal(e) == IF e.p = "C07" THEN VTotalC07(e)
+             ELSE IF e.p = "C13" THEN VTotalC13(e)
+             ELSE LET a == VTotalC07(e) IN IF a # OK THEN a ELSE VTotalC13(e)
+
+-------------------------------------------------------------------------------------
 Verdict(e) ==
   CASE e.ev = "dec"    -> VDec(e)
     [] e.ev = "enc"    -> VEnc(e)
@@ -266,6 +296,7 @@ Verdict(e) ==
     [] e.ev = "pow"    -> VPow(e)
     [] e.ev = "exp"    -> VExp(e)
     [] e.ev = "mathtot" -> VMathTot(e)
+    [] e.ev = "total"  -> VTotal(e)
     [] e.ev = "xyb"    -> VXyb(e)
     [] e.ev = "xybrt"  -> VXybRt(e)
     [] e.ev = "prim"   -> VPrim(e)
